@@ -113,6 +113,18 @@ def gen_world(rng: random.Random, parse_friendly: bool) -> World:
             continue
         d["refs"].append(r)
         w.m[r]["db"] = db
+    if not parse_friendly and len(tables) > 1 and rng.random() < 0.2:
+        # a composite reference built from the tables' own column lists (Reference(t, a.columns, b.columns))
+        ta, tb = rng.sample(tables, 2)
+        ca, cb = w.m[ta]["cols"], w.m[tb]["cols"]
+        if len(ca) == len(cb) and 1 <= len(ca) <= 3:
+            r = w.ref(rng.choice([">", "<", "-"]), list(ca), list(cb), name=rng.choice([None, "fk_all"]))
+            if ref_clash(w, db, r):
+                del w.m[r]
+            else:
+                w.m[r]["alias_table_lists"] = True
+                d["refs"].append(r)
+                w.m[r]["db"] = db
     for k in range(rng.randint(0, 2)):
         g = w.group(f"g{k}", rng.sample(tables, rng.randint(1, len(tables))),
                     comment=None if parse_friendly else rng.choice([None, "gc"]),
